@@ -4,6 +4,12 @@ From DRX Require Import Py.PyBytes Py.Layout Proofs.PyBytesFacts Proofs.LayoutFa
 Import ListNotations.
 Open Scope Z_scope.
 
+Lemma bytes_eqb_true a : forall b, bytes_eqb a b = true -> a = b.
+Proof.
+  induction a as [|x a IH]; intros [|y b]; cbn [bytes_eqb]; try discriminate; [reflexivity|].
+  intros H. apply andb_true_iff in H. destruct H as [H1 H2]. apply Byte.byte_dec_bl in H1. f_equal; auto.
+Qed.
+
 Definition safe (b : byte) : Prop := 32 <= u8 b <= 122.
 
 Lemma sanitize_char_safe b : safe (sanitize_char b).
